@@ -189,7 +189,7 @@ def run(ck):
     orig_defaults = layout.WriteBucketProxy.__init__.__defaults__
     i = 0
     try:
-        while not ck.out_of_time():
+        while ck.more(min_cases=180 if ck.tier == "quick" else 0):   # not by wall clock alone (load: see DESIGN 8.4b)
             i += 1
             if not ck.mine(i):
                 continue
